@@ -85,6 +85,14 @@ func (f *Interface) readOutsidePackets(via ViaSender, packet []byte, rxc *rxCont
 		return
 
 	case header.RecvError:
+		// We never send a recv_error through a relay (see maybeSendRecvError below), one that arrives that way was
+		// made up by the relay. It carries no proof of origin, so don't let it close a tunnel.
+		if via.IsRelayed {
+			if f.l.Enabled(context.Background(), slog.LevelDebug) {
+				f.l.Debug("Ignoring relayed recv_error", "from", via, "index", h.RemoteIndex)
+			}
+			return
+		}
 		f.handleRecvError(via.UdpAddr, h)
 		return
 	}
